@@ -168,22 +168,24 @@ type Prior struct {
 	Take  int       `json:"take"` // bytes to read before abandoning the stream; -1 = until EOF or error
 	Reads []int     `json:"reads,omitempty"`
 	Dict  *DataSpec `json:"dict,omitempty"`
+	Close bool      `json:"close,omitempty"` // call Close on the Reader after this use (before the next Reset)
 }
 
 // RScen is one Reader history: optional earlier uses, then the stream under test.
 type RScen struct {
-	Pkg     string        `json:"pkg"`
-	In      InputSpec     `json:"in"`
-	Src     SrcSpec       `json:"src"`
-	Ctor    string        `json:"ctor,omitempty"` // "new" (default) | "reset": constructed on an empty source, then Reset
-	Del     kern.Delivery `json:"del"`
-	Reads   []int         `json:"reads,omitempty"` // Read buffer sizes, cycled; empty = 64 KiB
-	Prior   []Prior       `json:"prior,omitempty"`
-	Dict    *DataSpec     `json:"dict,omitempty"`
-	NoMulti bool          `json:"no_multi,omitempty"` // gzip: Multistream(false) and Reset per member
-	Members int           `json:"members,omitempty"`  // NoMulti: stop after this many members (0 = until Reset fails)
-	MaxOut  int           `json:"max_out,omitempty"`
-	Extra   int           `json:"extra,omitempty"` // further Reads after the first error (default 3)
+	Pkg      string        `json:"pkg"`
+	In       InputSpec     `json:"in"`
+	Src      SrcSpec       `json:"src"`
+	Ctor     string        `json:"ctor,omitempty"` // "new" (default) | "reset": constructed on an empty source, then Reset
+	Del      kern.Delivery `json:"del"`
+	Reads    []int         `json:"reads,omitempty"` // Read buffer sizes, cycled; empty = 64 KiB
+	Prior    []Prior       `json:"prior,omitempty"`
+	Dict     *DataSpec     `json:"dict,omitempty"`
+	NoMulti  bool          `json:"no_multi,omitempty"` // gzip: Multistream(false) and Reset per member
+	Members  int           `json:"members,omitempty"`  // NoMulti: stop after this many members (0 = until Reset fails)
+	MaxOut   int           `json:"max_out,omitempty"`
+	Extra    int           `json:"extra,omitempty"`     // further Reads after the first error (default 3)
+	CloseEnd bool          `json:"close_end,omitempty"` // call Close after the stickiness reads
 }
 
 type MemberRec struct {
@@ -304,6 +306,7 @@ func fromFastHdr(h fgzip.Header) GzHdr {
 
 // reader abstracts over the six Reader implementations.
 type reader struct {
+	cl    io.Closer
 	rd    io.Reader
 	reset func(r io.Reader, dict []byte) error
 	hdr   func() GzHdr
@@ -337,20 +340,20 @@ func openReader(pkg string, fast bool, src io.Reader, dict []byte) (*reader, err
 			}
 		}
 		rs := rc.(resetter)
-		return &reader{rd: rc, reset: rs.Reset}, nil
+		return &reader{rd: rc, cl: rc, reset: rs.Reset}, nil
 	case "gzip":
 		if fast {
 			z, err := fgzip.NewReader(src)
 			if err != nil {
 				return nil, err
 			}
-			return &reader{rd: z, reset: func(r io.Reader, _ []byte) error { return z.Reset(r) }, hdr: func() GzHdr { return fromFastHdr(z.Header) }, multi: z.Multistream}, nil
+			return &reader{rd: z, cl: z, reset: func(r io.Reader, _ []byte) error { return z.Reset(r) }, hdr: func() GzHdr { return fromFastHdr(z.Header) }, multi: z.Multistream}, nil
 		}
 		z, err := sgzip.NewReader(src)
 		if err != nil {
 			return nil, err
 		}
-		return &reader{rd: z, reset: func(r io.Reader, _ []byte) error { return z.Reset(r) }, hdr: func() GzHdr { return fromStdHdr(z.Header) }, multi: z.Multistream}, nil
+		return &reader{rd: z, cl: z, reset: func(r io.Reader, _ []byte) error { return z.Reset(r) }, hdr: func() GzHdr { return fromStdHdr(z.Header) }, multi: z.Multistream}, nil
 	case "zlib":
 		var rc io.ReadCloser
 		var err error
@@ -371,7 +374,7 @@ func openReader(pkg string, fast bool, src io.Reader, dict []byte) (*reader, err
 			return nil, err
 		}
 		rs := rc.(resetter)
-		return &reader{rd: rc, reset: rs.Reset}, nil
+		return &reader{rd: rc, cl: rc, reset: rs.Reset}, nil
 	}
 	return nil, fmt.Errorf("unknown pkg %q", pkg)
 }
@@ -505,6 +508,9 @@ func RunR(t *kern.Task, log *kern.Log, sc *RScen, fast bool) (rec *RRec) {
 		}
 		var dummy RRec
 		drain(rd.rd, pr.Reads, pr.Take, maxOut, &dummy)
+		if pr.Close {
+			rd.cl.Close()
+		}
 	}
 	if useReset && rd == nil {
 		rd, err = openReader(sc.Pkg, fast, bytes.NewReader(tinyStream(sc.Pkg)), nil)
@@ -593,6 +599,9 @@ func RunR(t *kern.Task, log *kern.Log, sc *RScen, fast bool) (rec *RRec) {
 	}
 	if simsrc != nil {
 		rec.SrcCalls = simsrc.Calls
+	}
+	if sc.CloseEnd {
+		rd.cl.Close()
 	}
 	rec.SrcRest, rec.SrcRestKnown = rest()
 	return rec
